@@ -81,7 +81,8 @@ def run_once(ast, mode, fin, strict, limit=20):
 
 def run(ctx):
     rng = ctx.rng
-    files = list(CORPUS)
+    from props import funcs_common as FCm
+    files = list(CORPUS) + FCm.failure_patterns(1 if ctx.tier == 'thorough' else 5)
     for i in range(ctx.budget(70, 2500)):
         nf = rng.choice([1, 1, 2, 3])
         parts = []
